@@ -11,11 +11,13 @@ FEATURES = "mocks,tls,tls-ring,sni,verif-hooks"
 
 
 def index():
-    p = os.path.join(VERIF, "replays", "index.json")
-    if os.path.exists(p):
+    """replays/index*.json: obligation -> {"test": "<module path>::<test fn>"}"""
+    import glob
+    res = {}
+    for p in sorted(glob.glob(os.path.join(VERIF, "replays", "index*.json"))):
         with open(p) as f:
-            return json.load(f)
-    return {}
+            res.update(json.load(f))
+    return res
 
 
 def cargo_test(tests, scratch, timeout=1500):
